@@ -333,5 +333,164 @@ theorem simpDisjunction_sound (t : DataType) (phi p q r : Expr) (h : simpDisjunc
     Pres opq r (.bin t "or" p q) :=
   pres_of_truth opq (Or.inr (Or.inl rfl)) (simpDisjunction_truth opq t phi p q r h)
 
+
+/-! ## congruence: rebuilding an operator around preserved operands -/
+
+theorem pres_mkBin {op : String} {t : DataType} {a b a' b' r : Expr} (ha : Pres opq a' a) (hb : Pres opq b' b)
+    (h : mkBin op a' b' = .ok r) : Pres opq r (.bin t op a b) := by
+  intro ρ v hv
+  obtain ⟨x, y, hx, hy, hop⟩ := (eval_bin_ok opq).1 hv
+  exact mkBin_ok_eval opq h (ha ρ x hx) (hb ρ y hy) hop
+
+theorem pres_mkUn {op : String} {t : DataType} {a a' r : Expr} (ha : Pres opq a' a) (h : mkUn op a' = .ok r) :
+    Pres opq r (.un t op a) := by
+  intro ρ v hv
+  obtain ⟨x, hx, hop⟩ := (eval_un_ok opq).1 hv
+  exact mkUn_ok_eval opq h (ha ρ x hx) hop
+
+theorem pres_bin_congr {op : String} {t t' : DataType} {a b a' b' : Expr} (ha : Pres opq a' a) (hb : Pres opq b' b) :
+    Pres opq (.bin t' op a' b') (.bin t op a b) := by
+  intro ρ v hv
+  obtain ⟨x, y, hx, hy, hop⟩ := (eval_bin_ok opq).1 hv
+  exact (eval_bin_ok opq).2 ⟨x, y, ha ρ x hx, hb ρ y hy, hop⟩
+
+/-! ## the flip of `_pre_simplify_binop`: commutative operators and the inverse table -/
+
+theorem prim_eq_comm (a b : Prim) : Prim.eq a b = Prim.eq b a := by
+  cases a <;> cases b <;> simp [Prim.eq, Prim.isNumeric, Bool.beq_comm] <;> first | rfl | (congr 1; exact Bool.beq_comm ..) | skip
+  all_goals simp [BEq.comm]
+
+
+/-- the operators flagged commutative (table G2) are commutative where they are defined -/
+theorem binOp_comm_ok {op : String} (hop : op = "+" ∨ op = "*" ∨ op = "iff" ∨ op = "or" ∨ op = "and" ∨ op = "=" ∨ op = "!=")
+    {x y v : Value} (h : binOp op x y = .ok v) : binOp op y x = .ok v := by
+  rcases hop with rfl | rfl | rfl | rfl | rfl | rfl | rfl
+  · obtain ⟨qx, qy, rfl, rfl, rfl⟩ := arith_ok binOp_add h
+    rw [binOp_add_num]; congr 2; grind
+  · obtain ⟨qx, qy, rfl, rfl, rfl⟩ := arith_ok binOp_mul h
+    rw [binOp_mul_num]; congr 2; grind
+  · rw [binOp_iff] at h ⊢
+    cases hx : asBool x with
+    | error e => rw [hx] at h; simp [bind, Except.bind] at h
+    | ok a =>
+      cases hy : asBool y with
+      | error e => rw [hx, hy] at h; simp [bind, Except.bind] at h
+      | ok b => rw [hx, hy] at h; simp only [bind, Except.bind, pure, Except.pure, Except.ok.injEq] at h ⊢; rw [← h]; cases a <;> cases b <;> rfl
+  · rw [binOp_or] at h ⊢
+    cases hx : asBool x with
+    | error e => rw [hx] at h; simp [bind, Except.bind] at h
+    | ok a =>
+      cases hy : asBool y with
+      | error e => rw [hx, hy] at h; simp [bind, Except.bind] at h
+      | ok b => rw [hx, hy] at h; simp only [bind, Except.bind, pure, Except.pure, Except.ok.injEq] at h ⊢; rw [← h]; cases a <;> cases b <;> rfl
+  · rw [binOp_and] at h ⊢
+    cases hx : asBool x with
+    | error e => rw [hx] at h; simp [bind, Except.bind] at h
+    | ok a =>
+      cases hy : asBool y with
+      | error e => rw [hx, hy] at h; simp [bind, Except.bind] at h
+      | ok b => rw [hx, hy] at h; simp only [bind, Except.bind, pure, Except.pure, Except.ok.injEq] at h ⊢; rw [← h]; cases a <;> cases b <;> rfl
+  · rw [binOp_eq] at h ⊢
+    cases hx : asPrim x with
+    | error e => rw [hx] at h; simp [bind, Except.bind] at h
+    | ok a =>
+      cases hy : asPrim y with
+      | error e => rw [hx, hy] at h; simp [bind, Except.bind] at h
+      | ok b => rw [hx, hy] at h; simp only [bind, Except.bind] at h ⊢; rw [prim_eq_comm b a]; exact h
+  · rw [binOp_ne] at h ⊢
+    cases hx : asPrim x with
+    | error e => rw [hx] at h; simp [bind, Except.bind] at h
+    | ok a =>
+      cases hy : asPrim y with
+      | error e => rw [hx, hy] at h; simp [bind, Except.bind] at h
+      | ok b => rw [hx, hy] at h; simp only [bind, Except.bind] at h ⊢; rw [prim_eq_comm b a]; exact h
+
+/-- the inverse table (G4) for the order comparisons: `a < b` is `b > a`, `a <= b` is `b >= a` -/
+theorem binOp_inverse_ok {op inv : String} (hop : (op, inv) = ("<", ">") ∨ (op, inv) = (">", "<") ∨ (op, inv) = ("<=", ">=") ∨ (op, inv) = (">=", "<="))
+    {x y v : Value} (h : binOp op x y = .ok v) : binOp inv y x = .ok v := by
+  have key : ∀ (F G : Prim → Prim → EM Value), (∀ a b, F a b = G b a) →
+      (do let a ← asPrim x; let b ← asPrim y; F a b) = .ok v → (do let a ← asPrim y; let b ← asPrim x; G a b) = .ok v := by
+    intro F G hFG hF
+    cases hx : asPrim x with
+    | error e => rw [hx] at hF; simp [bind, Except.bind] at hF
+    | ok a =>
+      cases hy : asPrim y with
+      | error e => rw [hx, hy] at hF; simp [bind, Except.bind] at hF
+      | ok b => rw [hx, hy] at hF; simp only [bind, Except.bind] at hF ⊢; rw [← hFG]; exact hF
+  rcases hop with hh | hh | hh | hh <;> cases hh
+  · rw [binOp_lt] at h; rw [binOp_gt]; exact key _ _ (fun a b => rfl) h
+  · rw [binOp_gt] at h; rw [binOp_lt]; exact key _ _ (fun a b => rfl) h
+  · rw [binOp_le] at h; rw [binOp_ge]; exact key _ _ (fun a b => rfl) h
+  · rw [binOp_ge] at h; rw [binOp_le]; exact key _ _ (fun a b => rfl) h
+
+/-- swapping the operands of a commutative operator, or swapping them under the inverse comparison, preserves the value -/
+theorem pres_flip_comm {op : String} (hop : op = "+" ∨ op = "*" ∨ op = "iff" ∨ op = "or" ∨ op = "and" ∨ op = "=" ∨ op = "!=")
+    {t : DataType} {a b a' b' r : Expr} (ha : Pres opq a' a) (hb : Pres opq b' b) (h : mkBin op b' a' = .ok r) :
+    Pres opq r (.bin t op a b) := by
+  intro ρ v hv
+  obtain ⟨x, y, hx, hy, hbin⟩ := (eval_bin_ok opq).1 hv
+  exact mkBin_ok_eval opq h (hb ρ y hy) (ha ρ x hx) (binOp_comm_ok hop hbin)
+
+theorem pres_flip_inverse {op inv : String} (hop : (op, inv) = ("<", ">") ∨ (op, inv) = (">", "<") ∨ (op, inv) = ("<=", ">=") ∨ (op, inv) = (">=", "<="))
+    {t : DataType} {a b a' b' r : Expr} (ha : Pres opq a' a) (hb : Pres opq b' b) (h : mkBin inv b' a' = .ok r) :
+    Pres opq r (.bin t op a b) := by
+  intro ρ v hv
+  obtain ⟨x, y, hx, hy, hbin⟩ := (eval_bin_ok opq).1 hv
+  exact mkBin_ok_eval opq h (hb ρ y hy) (ha ρ x hx) (binOp_inverse_ok hop hbin)
+
+/-! ## negation, negative numbers, implication, equivalence -/
+
+/-- `_simplify_negation` on the simplified operand -/
+theorem negationRule_sound {t : DataType} {a p r : Expr} (hp : Pres opq p a)
+    (h : (if isTrueLit p then pure falseLit
+      else if isFalseLit p then pure trueLit
+      else match p with
+        | .un _ op2 x => if op2 == Gen.NOT_OPERATOR then pure x else mkNot p
+        | _ => mkNot p : M Expr) = .ok r) : Pres opq r (.un t Gen.NOT_OPERATOR a) := by
+  intro ρ v hv
+  obtain ⟨x, hx, hop⟩ := (eval_un_ok opq).1 hv
+  rw [show Gen.NOT_OPERATOR = "not" from rfl, unOp_not] at hop
+  cases hb : asBool x with
+  | error e => rw [hb] at hop; simp [bind, Except.bind] at hop
+  | ok c =>
+    rw [hb] at hop
+    simp only [bind, Except.bind, pure, Except.pure, Except.ok.injEq] at hop
+    subst hop
+    have hxv := asBool_ok.1 hb
+    subst hxv
+    have hpx := hp ρ _ hx
+    have htp : truth opq ρ p = some c := (truth_eq_some opq).2 hpx
+    have viaNot : ∀ r, mkNot p = .ok r → eval opq ρ r = .ok (Value.bool !c) := by
+      intro r hr
+      exact mkUn_ok_eval opq hr hpx (by rw [show Gen.NOT_OPERATOR = "not" from rfl, unOp_not]; rfl)
+    split at h
+    · rename_i ht
+      cases h
+      rw [truth_isTrueLit opq ρ p ht] at htp; cases htp; rfl
+    · split at h
+      · rename_i hf
+        cases h
+        rw [isFalseLit_truth ρ opq p hf] at htp; cases htp; rfl
+      · cases p with
+        | un t2 op2 x2 =>
+          simp only at h
+          split at h
+          · rename_i hn
+            cases h
+            have : op2 = Gen.NOT_OPERATOR := eq_of_beq hn
+            subst this
+            obtain ⟨xv, hxv, hu⟩ := (eval_un_ok opq).1 hpx
+            rw [show Gen.NOT_OPERATOR = "not" from rfl, unOp_not] at hu
+            cases hb2 : asBool xv with
+            | error e => rw [hb2] at hu; simp [bind, Except.bind] at hu
+            | ok d =>
+              rw [hb2] at hu
+              simp only [bind, Except.bind, pure, Except.pure, Except.ok.injEq, Value.bool, Value.prim.injEq, Prim.bool.injEq] at hu
+              rw [hxv, asBool_ok.1 hb2]
+              cases d <;> cases c <;> simp_all [Value.bool]
+          · exact viaNot r h
+        | lit _ _ _ | this _ | var _ _ | set _ _ | range _ _ _ _ _ | quant _ _ _ _ _ | bin _ _ _ _ | call _ _ _ | field _ _ _ | index _ _ _ =>
+          exact viaNot r h
+
 end
 end Hpl
